@@ -8,8 +8,8 @@
 //	explode|implode re-encodes every ill-formed byte as U+FFFD;
 //	utf8bytelength == number of bytes;
 //	slicing / indexing agree with explode, and .[:k] + .[k:] is the string, byte for byte;
-//	ascii_downcase / ascii_upcase equal the byte-wise conversion at code point level
-//	  (byte for byte is a known deviation, see conf.json);
+//	ascii_downcase / ascii_upcase change only A-Z / a-z, every other byte is kept
+//	  (finding C03.F1, fixed in 723377c);
 //	tojson is valid UTF-8 and valid JSON and reads back as explode|implode;
 //	@base64|@base64d and @uri|@urid are the identity on BYTES; split|join, l/rtrimstr,
 //	startswith/endswith, indices, comparison, tostring work on the bytes.
@@ -143,7 +143,7 @@ var utf8Rels = []utf8Rel{
 		}
 		return ""
 	}},
-	// strict form: replayed from known_findings only (see conf.json)
+	// byte for byte (known finding C03.F1, fixed in 723377c)
 	{id: "ascii case bytes", q: "[ascii_downcase, ascii_upcase]", check: func(s string, _ any, out []any) string {
 		ss, msg := strOut(out, 2)
 		if msg != "" {
@@ -274,9 +274,6 @@ func runUTF8(t *testing.T) {
 	n := 0
 	// relations
 	for _, rel := range utf8Rels {
-		if rel.id == "ascii case bytes" {
-			continue
-		}
 		for _, s := range badStrings {
 			for _, a := range utf8Args(rel, s) {
 				n++
@@ -384,12 +381,7 @@ func runUTF8(t *testing.T) {
 	})
 	rec.Extra("ill_formed_strings", len(badStrings))
 	// random ill-formed strings through the relations
-	var live []utf8Rel
-	for _, rel := range utf8Rels {
-		if rel.id != "ascii case bytes" {
-			live = append(live, rel)
-		}
-	}
+	live := utf8Rels
 	rec.Rapid(t, "utf8-rel-random", rec.Scale(30000, 400000), func(t *rapid.T) {
 		rel := live[rapid.IntRange(0, len(live)-1).Draw(t, "rel")]
 		s := gen.StrBad(10).Draw(t, "s")
